@@ -927,7 +927,17 @@ class C01:
             sel = sels[0]
             e = sel["elem"]
             cond_ok = False
-            if sel["form"] == "table":
+            if sel["form"] == "next":
+                # first row whose test holds, via next(<generator over the table>, None); no row -> guarded, not called
+                rets = s.returns
+                for x in sel["conds"]:
+                    if test == "isinstance":
+                        cond_ok |= x == ("call", ("builtin", "isinstance"), (("param", s.params[0]), ("sub", e, ("const", 1))), ())
+                    else:
+                        cond_ok |= x[0] == "cmp" and x[1] == "eq" and ("sub", e, ("const", 0)) in (x[2], x[3]) \
+                            and any(y[0] == "attr" and y[2] == "collection_type" for y in walk(x))
+                cond_ok = cond_ok and len(sel["conds"]) == 1 and sel["default_guard"]
+            elif sel["form"] == "table":
                 # a lookup table keyed by the type name (names are pairwise distinct, so first match == the match)
                 cond_ok = test == "collection_type" and sel["keycol"] == 0 and \
                     any(y[0] == "attr" and y[2] == "collection_type" for y in walk(sel["key"]))
